@@ -23,6 +23,7 @@
   (`ALV.floatPi`, Float twin); the theorems hold for every value of `pi`.
 -/
 import ALV.Model.C20
+import ALV.Model.C13
 import ALV.Common.TrigField
 namespace ALV.C20
 variable {α : Type}
@@ -238,6 +239,54 @@ def unwrapCall (fl : α → α) (pi : α) (md step : Arg α) (xs : List α) : Ex
 
 end calls
 
+/-! ### the envelope as the code builds it: `lowpass(cutoff)` is the one-pole design of property C13
+
+    `envelope.*(sig, cutoff=pi/512)` calls `lowpass(cutoff)` — the `lowpass` StrategyDict's default
+    strategy `pole`, `ALV.C13.lowpassPole` — and applies the designed filter (observed as its
+    coefficient lists, `a0 = 1`) to `abs(sig)` resp. `sig ** 2`.  Generic over `TrigField`: the driver
+    runs this term at `Float`, the theorems are about the same term at `ℝ`. -/
+section envelopePole
+variable [TrigField α] [C13.ZeroTest α] [OfNat α 0] [OfNat α 1] [NatCast α] [IntCast α]
+  [LT α] [DecidableLT α]
+
+/-- `lowpass(cutoff)` as the `(b, a)` lists of `frun` (`a0 = 1` dropped) -/
+def poleDesign (c : α) : List α × List α :=
+  let k := C13.lowpassPole c
+  (k.num, k.den.drop 1)
+
+/-- `envelope[strategy](sig[, cutoff])` with the real design, `** .5` as `sqrt`, `pi` the class's π -/
+def envelopePoleCall (s : Option EnvStrategy) (cutoff : Option α) (xs : List α) : List α :=
+  envelopeCall poleDesign TrigField.sqrt TrigField.pi s cutoff xs
+
+/-! #### a time-varying cutoff: `envelope.*(sig, cutoff=<stream or list>)`
+
+    `lowpass(cutoff)` on a Stream computes `x`, `R` sample by sample and returns the filter
+    `(1 − R[n]) / (1 − R[n] z⁻¹)` with Stream coefficients (no coefficient is ever tested for zero);
+    `LinearFilter.__call__` reads one value of every coefficient per input sample and stops with the
+    shorter of the two. -/
+
+/-- `R` of `lowpass.pole` for one cutoff value (the expression inside `ALV.C13.lowpassPole`) -/
+def polePoint (c : α) : α :=
+  let x := C13.c2 - TrigField.cos c
+  x - TrigField.sqrt (C13.sq x - C13.c1)
+
+/-- the generated loop with per-sample coefficients `b0 = 1 − R[n]`, `a1 = −R[n]`; `m` = previous output -/
+def envVarLoop : α → List α → List α → List α
+  | m, c :: cs, u :: us =>
+    let R := polePoint c
+    let y := (C13.c1 - R) * u - (-R) * m
+    y :: envVarLoop y cs us
+  | _, _, _ => []
+
+/-- `envelope[strategy](sig, cutoff=cs)` for a cutoff given sample by sample -/
+def envelopeVarCall (s : Option EnvStrategy) (cs xs : List α) : List α :=
+  match s.getD EnvStrategy.dflt with
+  | .rms => (envVarLoop 0 cs (xs.map fun x => x * x)).map TrigField.sqrt
+  | .abs => envVarLoop 0 cs (xs.map absG)
+  | .squared => envVarLoop 0 cs (xs.map fun x => x * x)
+
+end envelopePole
+
 /-! ### the instances the driver runs -/
 namespace R
 
@@ -262,6 +311,12 @@ instance : IntCast Float := ⟨Float.ofInt⟩
 
 def unwrapCall (md step : Arg Float) (xs : List Float) := C20.unwrapCall Float.floor floatPi md step xs
 def clipCall (low high : Arg Float) (xs : List Float) := C20.clipCall low high xs
+def envelopeAbs (b a xs : List Float) := C20.envelopeAbs b a xs
+def envelopeSquared (b a xs : List Float) := C20.envelopeSquared b a xs
+/-- the envelope call at `Float`: design `ALV.C13.lowpassPole`, `Float.sqrt`, `math.pi` -/
+def envelopePoleCall (s : Option EnvStrategy) (cutoff : Option Float) (xs : List Float) :=
+  C20.envelopePoleCall s cutoff xs
+def envelopeVarCall (s : Option EnvStrategy) (cs xs : List Float) := C20.envelopeVarCall s cs xs
 
 end F
 
